@@ -130,6 +130,7 @@ def reset_sites(cat, b, ctx, effs, adt, field, dflt):
     sites = set()
     notes = []
     iter_starts = {}
+    subclears = {}  # field of the field's own struct type -> blocks that clear it
     for e in effs:
         if e.cls == "access" and e.tag[1] in ("into_iter", "iter_mut", "iter"):
             for (f, rest) in self_field_targets(e, ctx):
@@ -169,6 +170,8 @@ def reset_sites(cat, b, ctx, effs, adt, field, dflt):
                     if sub == ("empty",):
                         sites.add(e.top_bb)
                         notes.append("sub-part %s cleared @%s" % (".".join(rest), e.line))
+                    elif len(rest) == 1 and rest[0].startswith("f:"):
+                        subclears.setdefault(rest[0][2:], set()).add(e.top_bb)
             elif e.cls == "destructive" and e.tag == ("Option", "take") and rest == ():
                 # `self.f.take()` leaves None behind
                 dv = dflt["values"].get(field) if dflt else None
@@ -186,6 +189,17 @@ def reset_sites(cat, b, ctx, effs, adt, field, dflt):
                     notes.append("= default @%s" % e.line)
                 else:
                     notes.append("assigned %s but default() gives %s @%s" % (vals, dv, e.line))
+    if not sites and subclears and field is not None:
+        # the field is a struct of the crate and its parts are cleared one by one
+        # (`self.spilled.smol.clear(); self.spilled.chonk.clear()`): a reset when every part is
+        # cleared on every path
+        fty = next((fd["ty"] for fd in cat.fields(adt) if fd["name"] == field), None)
+        sub_adt = fty.get("adt") if fty else None
+        if sub_adt and sub_adt in cat.F.adts and cat.F.adts[sub_adt].get("kind") == "struct":
+            subs = [fd["name"] for fd in cat.fields(sub_adt) if not is_phantom(fd["ty"])]
+            if subs and all(sf in subclears and not b.can_return_avoiding(subclears[sf]) for sf in subs):
+                sites |= subclears[subs[0]]
+                notes.append("every part of %s cleared (%s)" % (field, ", ".join(subs)))
     return sites, notes
 
 
@@ -332,6 +346,20 @@ def fresh_value(ctx, origin, effs, depth=0):
         tag = callee_tag(t.get("callee"))
         if tag in FRESH_OK_TAGS:
             return True, "%s::%s" % tag
+        if tag[1] in ("collect", "from_iter") and t["args"] and depth < 6:
+            # `(0..n).map(|i| R::merge_regions(..)).collect()`: a collection of freshly built children
+            from expr import operand_tree, apply_fn, nobb
+            src = nobb(operand_tree(ctx, t["args"][0]))
+            while src[0] == "call" and src[1][1] in ("into_iter", "iter") and src[2]:
+                src = src[2][0]
+            if src[0] == "call" and src[1] == ("Iterator", "map") and len(src[2]) == 2:
+                base = src[2][0]
+                while base[0] == "call" and base[1][1] in ("into_iter", "iter") and base[2]:
+                    base = base[2][0]
+                res = apply_fn(ctx.body.facts, src[2][1], [("opaque", "element")])
+                fresh_children = bool(res) and all(r[0] == "call" and r[1] in FRESH_OK_TAGS for r in res)
+                if fresh_children and base[0] == "agg" and str(base[1]).startswith("Range"):
+                    return True, "collected from freshly built children"
         return False, "built by %s::%s" % tag
     if root[0] == "agg":
         rv = ctx.org.stmt(root[1], root[2])["rv"]
@@ -940,6 +968,20 @@ def r_cover_heap(F, R, cat=None):
                                 st = indexed_over_full_range(ctx, e, f)
                             sites.update(st or [e.top_bb])
                             why.append("every element of %s" % f)
+                if not sites:
+                    # the field is a struct of the crate whose parts are reported one by one
+                    sub_adt = fd["ty"].get("adt")
+                    if sub_adt and sub_adt in F.adts and F.adts[sub_adt].get("kind") == "struct":
+                        parts = {}
+                        for e in effs:
+                            if e.cls == "heap_report":
+                                for (ff, rest) in self_field_targets(e, ctx):
+                                    if ff == f and len(rest) == 1 and rest[0].startswith("f:"):
+                                        parts.setdefault(rest[0][2:], set()).add(e.top_bb)
+                        subs = [x["name"] for x in cat.fields(sub_adt) if not is_phantom(x["ty"]) and is_storage_type(x["ty"]["s"], F)]
+                        if subs and all(sf in parts and not b.can_return_avoiding(parts[sf]) for sf in subs):
+                            sites |= parts[subs[0]]
+                            why.append("every part of %s reported (%s)" % (f, ", ".join(subs)))
                 ok = bool(sites) and not b.can_return_avoiding(sites)
                 lim = limited_iteration(effs, ctx, f)
                 if ok and lim is not None:
